@@ -84,6 +84,11 @@ def base_case(draw, types=TYPES, typ=None):
         # BIP341 annex the signatures commit to (taproot key path / p2pk leaf only: those are signed
         # through get_sig_taproot, which reads the annex from the witness)
         "annex": draw(st.one_of(st.none(), st.none(), st.binary(max_size=12).map(lambda b: b"\x50" + b))),
+        # m-of-n: every cosigner may pick a signature-hash type of his own (consensus checks each signature
+        # against the digest of ITS type)
+        "mixed_ht": draw(st.sampled_from([False, False, True])),
+        "hts": draw(st.lists(st.sampled_from([1, 1, 2, 3, 0x81, 0x82, 0x83]), min_size=5, max_size=5)),
+        "tap_hts": draw(st.lists(st.sampled_from([0, 0, 1, 2, 3, 0x81, 0x82, 0x83]), min_size=5, max_size=5)),
     }
 
 
@@ -188,8 +193,28 @@ class Spend:
             return chosen
         return sorted(chosen, key=lambda p: p.point.sec())
 
+    def own_ht(self, priv, taproot=False):
+        """the signature-hash type this cosigner uses (None: the library's default route)"""
+        if not self.case.get("mixed_ht") or self.typ not in MULTI:
+            return None
+        secrets = [p.secret for p in self.privs]
+        if priv.secret not in secrets:
+            return None  # a key outside the script (negative cases): default route
+        i = secrets.index(priv.secret)
+        ht = self.case["tap_hts" if taproot else "hts"][i]
+        if ht & 3 == 3 and self.idx >= self.case["n_out"]:
+            ht = (ht & 0x80) | 1  # SINGLE without a matching output: this cosigner uses ALL instead
+        return ht
+
     def ecdsa_sig(self, priv, tx=None):
         tx = tx or self.tx
+        ht = self.own_ht(priv)
+        if ht is not None and tx is self.tx:
+            if self.typ == "p2sh_multisig":
+                z = tx.sig_hash_legacy(self.idx, self.redeem, ht)
+            else:
+                z = tx.sig_hash_bip143(self.idx, witness_script=self.wscript, hash_type=ht)
+            return priv.sign(z).der() + bytes([ht])
         if self.typ in ("p2pkh", "p2pkh_uncompressed"):
             return tx.get_sig_legacy(self.idx, priv)
         if self.typ == "p2sh_multisig":
@@ -242,8 +267,8 @@ class Spend:
         if typ == "p2tr_script_multisig":
             tx.initialize_p2tr_multisig(idx, self.cb, self.tap_script)
             chosen = {p.secret for p in self.signer_privs()}
-            sigs = [tx.get_sig_taproot(idx, p, ext_flag=1) if p.secret in chosen else b""
-                    for p in self.privs]
+            sigs = [tx.get_sig_taproot(idx, p, ext_flag=1, hash_type=self.own_ht(p, taproot=True) or 0)
+                    if p.secret in chosen else b"" for p in self.privs]
             return tx.finalize_p2tr_multisig(idx, sigs)
         raise AssertionError(typ)
 
@@ -269,6 +294,11 @@ def check_signed(case, ctx):
     if sp.typ in MULTI:
         ctx.label(f"m={sp.m},n={sp.n}")
     ctx.nontrivial(sp.n >= 2 or case["n_in"] > 1)
+    if case.get("mixed_ht") and sp.typ in MULTI:
+        used = {sp.own_ht(p, taproot=sp.typ in TAPROOT) for p in sp.signer_privs()}
+        if len(used) >= 2:
+            ctx.label("cosigners_use_different_sighash_types")
+            ctx.label("mixed_sighash:" + ("tapscript" if sp.typ in TAPROOT else "ecdsa"))
     st_, r = attempt(sp.sign)
     require(st_ == "ok", f"signed/{sp.typ}:signing_raises", f"{type(r).__name__}: {r}")
     require(r is None or r is True, f"signed/{sp.typ}:sign_call_reports_invalid", repr(r))
@@ -366,6 +396,8 @@ def check_mutated(case, ctx):
         case = dict(case, annex=b"\x50" + bytes([case["which"]]))
     if mut == "annex_added_after_signing":
         case = dict(case, annex=None)
+    # the mutation catalogue is written against signatures of type ALL / DEFAULT (which commit to everything)
+    case = dict(case, mixed_ht=False)
     sp = Spend(case)
     typ, tx, idx = sp.typ, sp.tx, sp.idx
     if mut in ("dup_sig", "reorder_sigs") and sp.m < 2:
@@ -662,7 +694,8 @@ def check_nosig(case, ctx):
 SUBS = [
     Sub("signed_spends_verify", check_signed, strategy=lambda tier: base_case(),
         budget={"quick": 300, "thorough": 20000},
-        required=["type:" + t for t in TYPES] + ["annex_committed"],
+        required=["type:" + t for t in TYPES] + ["annex_committed", "mixed_sighash:tapscript",
+                                                  "mixed_sighash:ecdsa"],
         nontrivial_rule="m-of-n with n >= 2, or a transaction with more than one input"),
     Sub("unauthorised_never_verifies", check_mutated, strategy=lambda tier: mut_case(),
         budget={"quick": 650, "thorough": 60000},
